@@ -64,6 +64,51 @@ fn registry() -> Vec<CheckDef> {
         run: kvlib::c16::run,
         replay: kvlib::c16::replay,
         assumptions: &["mutating calls are observed through libc interposition; the sentinel tree is compared by recursive snapshot (everything but atime)", "read-only probes (stat/open O_RDONLY) outside the entry's place are not flagged"],
+    },
+    CheckDef {
+        id: "C13",
+        level: "exploration",
+        workers: 16,
+        rule: "exhaustive enumeration of the stack matrix: write side {none, plain, sharded(3)} x read-only levels (all sequences of length 0-2 over {plain, sharded}) x every level holding {nothing, A, B} (sharded levels: in the key's primary or secondary shard) x {get, touch, ensure, get_or_update x {Accept, Promote, Replace}, set, put, set_temp_file, put_temp_file} x populate {value C, value A, error, NotFound} x checker {none, byte-equality} x judge {silent, reads its argument to EOF}, plus the ReadOnlyCache API for get/touch; non-trivial = some level holds the key or the operation writes; distinct by construction",
+        run: kvlib::cmatrix::run_c13,
+        replay: kvlib::cmatrix::replay_c13,
+        assumptions: &["oracle: StackModel, an independent model of the documented stacking semantics (lookup order, hit kind, Accept/Promote/Replace, no-writer behaviour)", "rows whose outcome is decided by a consistency-checker mismatch are judged by C14, not here"],
+    },
+    CheckDef {
+        id: "C14",
+        level: "exploration",
+        workers: 16,
+        rule: "exhaustive enumeration: write side {none, plain, sharded} x 0-3 read-only levels x every level in {absent, A, B} (+secondary-shard placements up to 2 readers) x {get, ensure, get_or_update x {Accept, Promote, Replace}} x populate {A, B, NotFound, other error} x checker {none, byte-equality, panicking, recording}, plus ReadOnlyCache::get; non-trivial = at least two copies present, or a hit with a comparable populated value; distinct by construction",
+        run: kvlib::cmatrix::run_c14,
+        replay: kvlib::cmatrix::replay_c14,
+        assumptions: &["oracle: with a checker the call succeeds iff all present copies (and the populated value when compared) are identical; the recording checker logs the two contents of every invocation", "no exact invocation count is demanded, only that every redundant copy is compared and no exhausted handle is shown to the checker"],
+    },
+    CheckDef {
+        id: "C19",
+        level: "exploration",
+        workers: 16,
+        rule: "exhaustive enumeration of the C13 matrix with judges that read their argument to EOF, all four checker settings, populate {A, C, NotFound} and umask {000, 022, 077}; non-trivial = a handle was returned after a judge or checker consumed it, or a file was published into the write cache; distinct by construction",
+        run: kvlib::cmatrix::run_c19,
+        replay: kvlib::cmatrix::replay_c19,
+        assumptions: &["fcntl(F_GETFL)/lseek(SEEK_CUR) are taken on the returned handle before it is read", "the throw-away file served when there is no write side is exempt from the access-mode clause only"],
+    },
+    CheckDef {
+        id: "C15",
+        level: "exploration",
+        workers: 16,
+        rule: "(1) exhaustive enumeration of the C13 matrix extended with read-only levels whose directory does not exist and with the ReadOnlyCache API; (2) proptest-generated histories of 1-39 steps over {get, touch, ensure, get_or_update x3, set, put, set_temp_file, put_temp_file} on stacks with 1-2 read-only levels (plain/sharded, existing or missing, preloaded) and writer {none, plain, sharded} of capacity 2, keys including invalid names, populate {value, NotFound, error}, checker on/off, maintenance firing or not; non-trivial = some filesystem call of the operation reached a read-only root; distinct by construction (matrix) / hash (histories)",
+        run: kvlib::c15::run,
+        replay: kvlib::c15::replay,
+        assumptions: &["a call is mutating if it can create, truncate, write, rename, link, unlink, chmod or set a modification time; futimens with mtime = UTIME_OMIT (atime only) is the single permitted effect", "snapshots compare type, content hash, mode, mtime, inode; atime may only advance"],
+    },
+    CheckDef {
+        id: "C20",
+        level: "exploration",
+        workers: 16,
+        rule: "(1) {get hit, get miss, touch hit, touch miss, set new, set existing, put new, put existing} x {plain, sharded(4), stack depth 1, 2, 3} x {files planted behind a fresh handle, populated through the handle under test} with the write directory holding 0, 10, 100, 2000 other entries and the trigger scripted not to fire: the multiset of intercepted calls must be identical across sizes, no directory may be listed, a lookup makes <= 2 open attempts per cache directory, peak open files <= 2, nothing stays open, no lock; (2) peak (<= 2, <= 3 with a checker), residual descriptors and locking primitives over the whole C14 stack matrix (up to 3 read-only levels, all checkers); non-trivial = a run with >= 100 entries compared against the empty directory, or a matrix point during which at least two files were open at once; distinct by construction",
+        run: kvlib::c20::run,
+        replay: kvlib::c20::replay,
+        assumptions: &["calls are counted by libc interposition; the application's own staging of source files is not counted", "descriptor counts come from the intercepted open/opendir/close/closedir stream and are cross-checked against the shim's table of still-open descriptors after the call"],
     }]
 }
 
